@@ -293,11 +293,23 @@ def eval_treeinfo(case):
                     if ini.p.has_option(s, src):
                         ini.p.set(s, dst, ini.p.get(s, src))
                         ini.p.remove_option(s, src)
+    if ver > 0 and case.get("rot", 0) % 2 and ini.p.has_option("tree", "build_timestamp"):
+        # older writers stored time.time() as it came (the format says <int|float>): the whole seconds are the fact
+        ini.p.set("tree", "build_timestamp", ini.p.get("tree", "build_timestamp") + ".68")
     if has(steps, "layout", "document"):
         keep = [s for s in ini.p.sections() if s == "general" or s.startswith("images-") or s in ("stage2", "checksums", "media")]
         for s in ini.p.sections():
             if s not in keep:
                 ini.p.remove_section(s)
+        if case.get("rot", 0) % 2:
+            # the older spelling of per-platform image sections: [images-<platform>-<arch>]
+            arch = ini.p.get("general", "arch")
+            for s in list(ini.p.sections()):
+                if s.startswith("images-") and s[7:] != arch:
+                    ini.p.add_section(s + "-" + arch)
+                    for o, v in ini.p.items(s):
+                        ini.p.set(s + "-" + arch, o, v)
+                    ini.p.remove_section(s)
         if ini.p.has_section("media"):                       # pre-productmd files carry disc numbering in [general]
             for o, v in ini.p.items("media"):
                 ini.p.set("general", o, v)
@@ -433,7 +445,7 @@ def run(ctx):
     # images (non-unified images only: unified did not exist before 1.2)
     cases = []
     for i, c in enumerate(c02.gen(ctx, 2, 2)):
-        if any(c["pool"][n]["unified"] or n in ("p7", "p8", "p9") for cell in c["obj"] for n in cell["imgs"]):
+        if any(c["pool"][n]["unified"] or n in ("p7", "p8", "p9", "p10") for cell in c["obj"] for n in cell["imgs"]):
             continue
         for ver in (100, 101):
             cases.append({"obj": c["obj"], "pool": c["pool"], "ver": ver, "steps": rec[("images", ver)], "rot": (i + ctx.seed) % 132})
@@ -478,7 +490,7 @@ def run(ctx):
                 continue            # 0.3 keeps source content of a src tree in packages/repository: not expressible otherwise
             if ver == 0 and (len(o["tops"]) != 1 or "-" in list(o["tops"])[0] or i % 4):
                 continue
-            cases.append({"obj": o, "ver": ver, "steps": rec[("treeinfo", ver)], "rot": ((i + ctx.seed) % 6) * 3})
+            cases.append({"obj": o, "ver": ver, "steps": rec[("treeinfo", ver)], "rot": ((i * 7 + i // 4 + ctx.seed) % 10) * 3})
     probe(ctx, eval_treeinfo, cases, "treeinfo")
     ctx.evaluate(eval_treeinfo, cases, label="treeinfo-upgrade", chunk=100, key=lambda c: core._digest([c["obj"], c["ver"], c["rot"]]))
     ctx.evaluate(eval_fixture, fixtures(), label="fixture", chunk=10)
